@@ -336,6 +336,26 @@ func runC18(c *Ctx) {
 		}
 	}
 
+	// R7 (prover): every slice of an allocator page in getDataSlice and recvPacket is within the page
+	{
+		w := newZWorld(p)
+		ord := map[string]int{}
+		lifted := map[*ssa.Function][]zreq{}
+		for _, name := range []string{"(*sshFxpReadPacket).getDataSlice", "recvPacket"} {
+			fn := p.Func(name)
+			if fn == nil {
+				continue
+			}
+			z := w.get(fn)
+			for _, o := range z.obligationsOf() {
+				if o.Kind != "slice" && o.Kind != "index" {
+					continue
+				}
+				decideObl(c, w, z, o, "R7", oblKey(o, fn, ord), lifted)
+			}
+		}
+		checkPageInvariant(c, "R7")
+	}
 	// ---------- R7 page slicing bounded by the page length ----------
 	if gds := p.Func("(*sshFxpReadPacket).getDataSlice"); gds != nil {
 		for _, gp := range callsWhere(gds, func(cc *ssa.CallCommon) bool { return calleeName(cc) == "GetPage" }) {
